@@ -169,6 +169,14 @@ class Distribution(Density, ABC):
                     f" specified. Conditioning variables are: {cond_vars}"
                 )
             
+            # If the main parameter is passed as positional argument, only the conditioning variables may be keywords
+            if "_main_parameter" in kwargs and len(kwargs) > len(cond_vars) + 1:
+                raise ValueError(
+                    f"{self.logd.__qualname__}: Unexpected keyword arguments"
+                    f" {[key for key in kwargs if key not in cond_vars and key != '_main_parameter']}."
+                    f" Conditioning variables are: {cond_vars}"
+                )
+
             # Extract exactly the conditioning variables from kwargs
             cond_kwargs = {key: kwargs[key] for key in cond_vars}
 
